@@ -17,7 +17,8 @@ def W2 : Nat := 340282366920938463463374607431768211456
 /-- `u128::trailing_zeros` -/
 def tz128 (n : Nat) : Nat := if n = 0 then 128 else Ymq.Mg64.tzAux 128 n
 
-/-- the `loop` of `M128::inv_2adic` (same iteration as `mg_2adic_inv`, on 128 bits) -/
+/-- the `loop` of `M128::inv_2adic` (same iteration as `mg_2adic_inv`, on 128 bits; the update is
+`x = x.wrapping_add(1 << rem.trailing_zeros())` since /repo commit "fix: M128::inv_2adic ...") -/
 def invLoop : Nat → Nat → Nat → Option Nat
   | 0, _, _ => none
   | f + 1, n, x =>
@@ -26,9 +27,7 @@ def invLoop : Nat → Nat → Nat → Option Nat
     else
       let rem := nx - 1
       if rem = 0 then some x
-      else
-        let x' := x + 2 ^ tz128 rem       -- x += 1 << rem.trailing_zeros()
-        if x' ≥ W2 then none else invLoop f n x'
+      else invLoop f n ((x + 2 ^ tz128 rem) % W2)
 
 /-- `M128::inv_2adic(n)` -/
 def inv2adic (n : Nat) : Option Nat :=
